@@ -220,7 +220,8 @@ class _UseDepDefaultContainment(values.ContainmentMatch, caching=False):
 
     def __init__(self, if_missing: bool, vals, negate=False):
         self.if_missing = bool(if_missing)
-        super().__init__(vals, negate=negate, match_all=True)
+        # a negated group means "none of the flags enabled", not "not all of them"
+        super().__init__(vals, negate=negate, match_all=not negate)
         self._hash = hash(
             (self.__class__, self.if_missing, self.all, self.negate, self.vals)
         )
